@@ -209,6 +209,10 @@ var Ops = []Op{
 		n, err := s.Tok.GetBlockID(hx.Fact(refdl.A("lookup", rx.Str(fmt.Sprintf("never-seen-%d", id)), rx.Str("n1"))))
 		return fmt.Sprint(n, err)
 	}},
+	{Name: "GetBlockID-known-name-unseen-term", Run: func(s *Shared, id int) string {
+		n, err := s.Tok.GetBlockID(hx.Fact(refdl.A("right", rx.Str(fmt.Sprintf("never-seen-term-%d", id)), rx.Str("read"))))
+		return fmt.Sprint(n, err)
+	}},
 	{Name: "GetBlockID-present", Run: func(s *Shared, id int) string {
 		n, err := s.Tok.GetBlockID(hx.Fact(refdl.A("right", rx.Str("read"), rx.Str("read"))))
 		return fmt.Sprint(n, err)
